@@ -251,7 +251,7 @@ theorem setSize_static (b : SecBuf) (v : BitVec 64) :
 theorem insertFinish_static (b : SecBuf) (ns n : BitVec 64) :
     (b.insertFinish ns n).stype = b.stype ∧ (b.insertFinish ns n).entSize = b.entSize := by
   obtain ⟨h1, h2⟩ := setSize_static b ns
-  unfold SecBuf.insertFinish
+  rw [SecBuf.insertFinish_hand]
   by_cases ht : (b.setSize ns).translatorEmpty = true
   · simp only [ht, if_true]; exact ⟨h1, h2⟩
   · simp only [ht, if_false]; exact ⟨h1, h2⟩
